@@ -6,8 +6,9 @@
    the hook, plus begin/end markers of each render written by the harness:
        begin r | acquire b | existing b | flush b err | release b | get b | put b | end r err
    Every event carries the render r that was running on the calling goroutine.  The state is the
-   pool-protocol state of RenderPool.tla (holders, pooled -- module RenderPoolOps) and each event
-   applies the corresponding operator.  The spec consumes the whole trace and collects every line at
+   holding relation of RenderPool.tla (module RenderPoolOps) for each of the two pools and each event
+   applies the corresponding operator (the content of sync.Pool itself is not tracked: an object the
+   garbage collector dropped from the pool is indistinguishable from one that is never taken again).  The spec consumes the whole trace and collects every line at
    which the real code left the protocol:
        ExclusiveBuffer.*   a buffer handed out while held / touched by a render that does not hold it
                            (flush after release = Put before the last use)
@@ -15,23 +16,21 @@
        OneOwner.*          a nested component acquired a second buffer, a render returned while holding one *)
 EXTENDS Integers, Sequences, FiniteSets, TLC, Json, RenderPoolOps
 
-CONSTANTS NB,         \* buffer object ids are 1..NB
+CONSTANTS NB,         \* buffer object ids are 1..NB (informative only)
           CheckWriter \* TRUE: the harness gives writer id = render id, so acquire must report it (0 = a writer without id)
 
 Trace == ndJsonDeserialize("trace.ndjson")
 
-VARIABLES i, hr, pr, hb, pb, active, viol, cnt
-vars == <<i, hr, pr, hb, pb, active, viol, cnt>>
+VARIABLES i, hr, hb, active, viol, cnt
+vars == <<i, hr, hb, active, viol, cnt>>
 
 Kinds == {"begin", "end", "acquire", "existing", "flush", "release", "get", "put"}
 
 Init == /\ i = 0
-        /\ hr = [b \in 1..NB |-> {}] /\ pr = {}
-        /\ hb = [b \in 1..NB |-> {}] /\ pb = {}
+        /\ hr = {} /\ hb = {}
         /\ active = {} /\ viol = <<>>
         /\ cnt = [k \in Kinds |-> 0]
 
-Holds(h, r) == \E b \in 1..NB : r \in h[b]
 V(line, kind) == [line |-> line, kind |-> kind]
 AddIf(s, c, v) == IF c THEN Append(s, v) ELSE s
 
@@ -47,41 +46,41 @@ Step ==
        /\ CASE e.ev = "begin" ->
                  /\ active' = active \cup {r}
                  /\ viol' = AddIf(viol, r \in active, V(n, "Harness.RenderBeginTwice"))
-                 /\ UNCHANGED <<hr, pr, hb, pb>>
+                 /\ UNCHANGED <<hr, hb>>
             [] e.ev = "end" ->
                  /\ active' = active \ {r}
                  /\ viol' = AddIf(viol, Holds(hr, r) \/ Holds(hb, r), V(n, "OneOwner.HeldAfterReturn"))
-                 /\ UNCHANGED <<hr, pr, hb, pb>>
+                 /\ UNCHANGED <<hr, hb>>
             [] e.ev = "acquire" ->                                   \* GetBuffer: Get + Reset
-                 /\ hr' = HGet(hr, r, b) /\ pr' = PGet(pr, b)
+                 /\ hr' = HGet(hr, r, b)
                  /\ viol' = AddIf(AddIf(AddIf(AddIf(viol,
                                 ~GetLegal(hr, r, b), V(n, "ExclusiveBuffer.AcquireWhileHeld")),
                                 e.dirty, V(n, "NoCarryOver.DirtyAcquire")),
                                 CheckWriter /\ e.w # 0 /\ e.w # r, V(n, "NoCarryOver.WrongWriter")),
                                 Holds(hr, r), V(n, "OneOwner.SecondAcquire"))
-                 /\ UNCHANGED <<hb, pb, active>>
+                 /\ UNCHANGED <<hb, active>>
             [] e.ev = "existing" ->                                  \* GetBuffer: the writer already is a *Buffer
                  /\ viol' = AddIf(viol, ~UseLegal(hr, r, b), V(n, "ExclusiveBuffer.UseNotHeld"))
-                 /\ UNCHANGED <<hr, pr, hb, pb, active>>
+                 /\ UNCHANGED <<hr, hb, active>>
             [] e.ev = "flush" ->                                     \* ReleaseBuffer: b.Flush()
                  /\ viol' = AddIf(viol, ~UseLegal(hr, r, b), V(n, "ExclusiveBuffer.UseAfterRelease"))
-                 /\ UNCHANGED <<hr, pr, hb, pb, active>>
+                 /\ UNCHANGED <<hr, hb, active>>
             [] e.ev = "release" ->                                   \* ReleaseBuffer: bufferPool.Put(b)
-                 /\ hr' = HDrop(hr, r, b) /\ pr' = PPut(pr, b)
+                 /\ hr' = HDrop(hr, r, b)
                  /\ viol' = AddIf(viol, ~UseLegal(hr, r, b), V(n, "ExclusiveBuffer.ReleaseNotHeld"))
-                 /\ UNCHANGED <<hb, pb, active>>
+                 /\ UNCHANGED <<hb, active>>
             [] e.ev = "get" ->                                       \* templ.GetBuffer (bytes.Buffer pool)
-                 /\ hb' = HGet(hb, r, b) /\ pb' = PGet(pb, b)
+                 /\ hb' = HGet(hb, r, b)
                  /\ viol' = AddIf(AddIf(viol,
                                 ~GetLegal(hb, r, b), V(n, "ExclusiveBuffer.BytesAcquireWhileHeld")),
                                 e.dirty, V(n, "NoCarryOver.DirtyBytesBuffer"))
-                 /\ UNCHANGED <<hr, pr, active>>
+                 /\ UNCHANGED <<hr, active>>
             [] e.ev = "put" ->                                       \* templ.ReleaseBuffer: Reset + Put
-                 /\ hb' = HDrop(hb, r, b) /\ pb' = PPut(pb, b)
+                 /\ hb' = HDrop(hb, r, b)
                  /\ viol' = AddIf(AddIf(viol,
                                 ~UseLegal(hb, r, b), V(n, "ExclusiveBuffer.BytesReleaseNotHeld")),
                                 e.dirty, V(n, "NoCarryOver.PutWithoutReset"))
-                 /\ UNCHANGED <<hr, pr, active>>
+                 /\ UNCHANGED <<hr, active>>
 
 Next == Step
 Spec == Init /\ [][Next]_vars
@@ -93,5 +92,5 @@ ExclusiveNow == Exclusive(hr) /\ Exclusive(hb)
 Done == i = Len(Trace)
 Report == Done => PrintT(<<"TRACE", ToJson([lines |-> i, viol |-> viol, cnt |-> cnt,
                                             exclusive |-> ExclusiveNow,
-                                            stillheld |-> Cardinality({b \in 1..NB : hr[b] # {} \/ hb[b] # {}})])>>)
+                                            stillheld |-> Cardinality(hr) + Cardinality(hb)])>>)
 =============================================================================
